@@ -37,11 +37,29 @@ def eval_int(expr, env=None):
     return int(eval(e.replace("/", "//"), {"__builtins__": {}}))
 
 
-def const(src, name, where, env=None):
+SIZEOF = {}   # filled by gen(): byte sizes of the wire types, for size_of::<T>() in constant expressions
+
+
+def const(src, name, where, env=None, depth=0):
+    """Value of `const NAME: T = <expr>;`. Identifiers in the expression are resolved from env,
+    then from other consts of the same source (recursively); `size_of::<T>()` from the wire layouts."""
     m = re.search(r"\bconst\s+%s\s*:\s*[A-Za-z0-9_]+\s*=\s*([^;]+);" % re.escape(name), src)
     if not m:
         raise Missing("const %s not found in %s" % (name, where))
-    return eval_int(m.group(1), env)
+    expr = m.group(1)
+
+    def sz(mm):
+        ty = re.sub(r"\s+", "", mm.group(1))
+        if ty not in SIZEOF:
+            raise Missing("size_of::<%s>() in const %s (%s): size of that type is not known to the translator" % (ty, name, where))
+        return str(SIZEOF[ty])
+    expr = re.sub(r"(?:(?:::)?(?:std|core)::)?(?:mem::)?size_of::<\s*([^()]+?)\s*>\(\)", sz, expr)
+    env = dict(env or {})
+    if depth < 6:
+        for ident in set(re.findall(r"\b[A-Z][A-Z0-9_]+\b", expr)):
+            if ident not in env and re.search(r"\bconst\s+%s\s*:" % re.escape(ident), src):
+                env[ident] = const(src, ident, where, None, depth + 1)
+    return eval_int(expr, env)
 
 
 def has_guard(src, cond_regex):
@@ -150,9 +168,54 @@ def coq_list(items):
     return "[" + "; ".join(items) + "]"
 
 
+def fill_sizeof(repo):
+    """Byte sizes of the udp wire types (packed structs, newtypes, address arrays)."""
+    pc = strip_comments(read(repo, "crates/udp_protocol/src/common.rs"))
+    rq = strip_comments(read(repo, "crates/udp_protocol/src/request.rs"))
+    rs = strip_comments(read(repo, "crates/udp_protocol/src/response.rs"))
+    pid = strip_comments(read(repo, "crates/peer_id/src/lib.rs"))
+    newtypes = newtype_map(pc)
+    newtypes.update(newtype_map(pid))
+    prim = {"I32": 4, "U32": 4, "I64": 8, "U16": 2, "u8": 1, "u16": 2, "u32": 4, "u64": 8, "i32": 4, "i64": 8}
+
+    def size(ty, ip=None):
+        ty = ty.strip()
+        for _ in range(6):
+            if ty in newtypes:
+                ty = newtypes[ty]
+        if ty in prim:
+            return prim[ty]
+        a = re.fullmatch(r"\[\s*u8\s*;\s*(\d+)\s*\]", ty)
+        if a:
+            return int(a.group(1))
+        if ty == "I" and ip is not None:
+            return ip
+        if re.search(r"#\[repr\(i32\)\]\s*pub\s+enum\s+%s\b" % re.escape(ty), rq + rs + pc):
+            return 4
+        raise Missing("size of wire type %r" % ty)
+    SIZEOF.clear()
+    for nt in newtypes:
+        try:
+            SIZEOF[nt] = size(nt)
+        except Missing:
+            pass
+    for st, src in (("AnnounceRequest", rq), ("ConnectResponse", rs), ("AnnounceResponseFixedData", rs), ("TorrentScrapeStatistics", rs)):
+        try:
+            SIZEOF[st] = sum(size(t) for _, t in packed_struct(src, st, "udp_protocol"))
+        except Missing:
+            pass
+    try:
+        fields = packed_struct(rs, "ResponsePeer", "udp_protocol")
+        for ipname in ("Ipv4AddrBytes", "Ipv6AddrBytes"):
+            SIZEOF["ResponsePeer<%s>" % ipname] = sum(size(t, SIZEOF.get(ipname)) for _, t in fields)
+    except Missing:
+        pass
+
+
 def gen(repo):
     files = {}
     consts = []
+    fill_sizeof(repo)
 
     def add(name, value, src):
         consts.append((name, value, src))
